@@ -119,6 +119,31 @@ def correspondence(rep, ctx):
                         break
                 rep.dist("equivalent-seconds-hp")
 
+    # ---- 2b. the time given as a whole number in other numeric types: the same duration as the float of that number
+    import numpy as np
+    import fractions as _fr
+    long_lived = [i for i in radio if float(view.rate[i]) < 1e-9][:40]
+    for u in (tunits if thorough else r.sample(tunits, 10) + ["m", "h", "d", "days"]):
+        i = r.choice(long_lived)
+        nm = view.names[i]
+        for n_int in (r.choice([3, 200, 25000, 600000]), 7):
+            ref_inv = rd.Inventory({nm: 1.0e9}, "num")
+            ref = ref_inv.decay(float(n_int), u).numbers()
+            refc = ref_inv.cumulative_decays(float(n_int), u)
+            for tv in (n_int, np.int64(n_int), np.int32(n_int), np.float32(n_int), np.float64(n_int), np.uint32(n_int)) + ((np.uint8(n_int), np.int16(n_int)) if n_int < 128 else ()):
+                desc = f"Inventory({{{nm!r}: 1e9}}).decay({type(tv).__name__}({n_int}), {u!r})"
+                rep.case(("numeric-type-time", u, type(tv).__name__, n_int))
+                rep.dist("time-numeric-types")
+                try:
+                    with np.errstate(all="ignore"):
+                        got = rd.Inventory({nm: 1.0e9}, "num").decay(tv, u).numbers()
+                        gotc = rd.Inventory({nm: 1.0e9}, "num").cumulative_decays(tv, u)
+                    if any(abs(F(got[k_]) - F(ref[k_])) > Fraction(1, 10**11) * 10**9 for k_ in ref) or \
+                            any(not (abs(F(gotc[k_]) - F(refc[k_])) <= Fraction(1, 10**11) * 10**9) for k_ in refc):
+                        fail(desc, f"gives {dict(list(got.items())[:2])}, the same duration as a float gives {dict(list(ref.items())[:2])}")
+                except Exception as e:  # noqa: BLE001
+                    fail(desc, f"raised {type(e).__name__}: {e}")
+
     # ---- 3. half-life queries in every unit; halving
     sample = radio if thorough else r.sample(radio, 120)
     for i in sample:
